@@ -231,6 +231,10 @@ pub fn generate_tree(
     brlens: bool,
     sampler_type: Distr,
 ) -> Result<Tree, TreeError> {
+    if n_leaves == 0 {
+        return Err(TreeError::IsEmpty);
+    }
+
     let mut tree = Tree::new();
     // Add root
     tree.add(Node::default());
@@ -279,6 +283,10 @@ pub fn generate_yule(
     brlens: bool,
     sampler_type: Distr,
 ) -> Result<Tree, TreeError> {
+    if n_leaves == 0 {
+        return Err(TreeError::IsEmpty);
+    }
+
     // Initialize tree
     let mut tree = Tree::new();
     let root = tree.add(Node::default());
